@@ -2,6 +2,7 @@ import DirectVerif.Gen.C06
 import DirectVerif.Model.MaskGeom
 import DirectVerif.Model.C06Seed
 import DirectVerif.Model.C06Crop
+import DirectVerif.Model.C06Grid
 /-!
 # Bridge C06 — the ACS arithmetic translated from `/repo` equals the hand-written model
 -/
@@ -134,6 +135,11 @@ theorem code_machine {σ Seed : Type} :
   have h1 : SeedArg.ofTexts tempSeedArgs = .unchanged := by decide
   have h2 : MemoPolicy.ofWrites stateWrites = .none := by decide
   rw [h1, h2]; rfl
+
+/-- the geometry helpers build their index grids with the default (64-bit signed) integer type and cast nothing to a
+narrow or unsigned integer: the squared distances of `Model/MaskGeom.lean` (computed in ℤ) are what the code computes,
+for every k-space size -/
+theorem grid_index_dtypes_ok : C06Grid.gridDtypesOk gridDtypes = true := by decide
 
 /-- `poisson`: the corner crop is applied to the rasterised pattern BEFORE the ACS disc is OR-ed in — the translated
 statement order selects `C06Crop.poissonFrame`, the frame `Props.C06.poisson_crop_acs_subset` is about -/
